@@ -202,6 +202,52 @@ func (s *NumRangeShard) EqualStart(key interface{}, index int) bool {
 	return s.Shards[index].Start == v
 }
 
+const (
+	periodYear = iota
+	periodMonth
+	periodDay
+)
+
+// isFirstInstantOfPeriod reports whether key (a unix timestamp, 'YYYY-MM-DD' or
+// 'YYYY-MM-DD HH:MM:SS') is provably the first instant of its year, month or day.
+// A key that cannot be parsed is not, so that callers never prune on it.
+func isFirstInstantOfPeriod(key interface{}, period int) bool {
+	var tm time.Time
+	switch val := key.(type) {
+	case int:
+		tm = time.Unix(int64(val), 0)
+	case uint64:
+		tm = time.Unix(int64(val), 0)
+	case int64:
+		tm = time.Unix(val, 0)
+	case string:
+		var err error
+		switch len(val) {
+		case len("2006-01-02"):
+			tm, err = time.Parse("2006-01-02", val)
+		case len("2006-01-02 15:04:05"):
+			tm, err = time.Parse("2006-01-02 15:04:05", val)
+		default:
+			return false
+		}
+		if err != nil {
+			return false
+		}
+	default:
+		return false
+	}
+	if tm.Hour() != 0 || tm.Minute() != 0 || tm.Second() != 0 || tm.Nanosecond() != 0 {
+		return false
+	}
+	switch period {
+	case periodYear:
+		return tm.Month() == time.January && tm.Day() == 1
+	case periodMonth:
+		return tm.Day() == 1
+	}
+	return true
+}
+
 type DateYearShard struct {
 }
 
@@ -234,13 +280,14 @@ func (s *DateYearShard) FindForKey(key interface{}) (int, error) {
 	return s.getNumYear(key)
 }
 
+// EqualStart reports whether key is exactly the first instant of year index.
 func (s *DateYearShard) EqualStart(key interface{}, index int) bool {
 	numYear, err := s.getNumYear(key)
 	if err != nil {
 		return false
 	}
 
-	return numYear == index
+	return numYear == index && isFirstInstantOfPeriod(key, periodYear)
 }
 
 type DateMonthShard struct {
@@ -295,13 +342,14 @@ func (s *DateMonthShard) FindForKey(key interface{}) (int, error) {
 	return s.getNumYearMonth(key)
 }
 
+// EqualStart reports whether key is exactly the first instant of month index.
 func (s *DateMonthShard) EqualStart(key interface{}, index int) bool {
 	numYear, err := s.getNumYearMonth(key)
 	if err != nil {
 		return false
 	}
 
-	return numYear == index
+	return numYear == index && isFirstInstantOfPeriod(key, periodMonth)
 }
 
 type DateDayShard struct {
@@ -356,13 +404,14 @@ func (s *DateDayShard) FindForKey(key interface{}) (int, error) {
 	return s.getNumYearMonthDay(key)
 }
 
+// EqualStart reports whether key is exactly the first instant of day index.
 func (s *DateDayShard) EqualStart(key interface{}, index int) bool {
 	numYear, err := s.getNumYearMonthDay(key)
 	if err != nil {
 		return false
 	}
 
-	return numYear == index
+	return numYear == index && isFirstInstantOfPeriod(key, periodDay)
 }
 
 type DefaultShard struct {
